@@ -28,7 +28,7 @@ Definition comment_eqb (a b : comment) : bool :=
   beq (cm_text a) (cm_text b) && list_eqb tag_eqb (cm_tags a) (cm_tags b) && rng_eqb (cm_rng a) (cm_rng b).
 Definition tx_eqb (a b : transaction) : bool :=
   date_eqb (tx_date a) (tx_date b) && option_eqb date_eqb (tx_date2 a) (tx_date2 b) && status_eqb (tx_status a) (tx_status b) &&
-  beq (tx_code a) (tx_code b) && beq (tx_desc a) (tx_desc b) && beq (tx_payee a) (tx_payee b) && beq (tx_note a) (tx_note b) &&
+  beq (tx_code a) (tx_code b) && beq (tx_desc a) (tx_desc b) && beq (tx_payee a) (tx_payee b) && beq (tx_note a) (tx_note b) && rng_eqb (tx_prng a) (tx_prng b) &&
   list_eqb posting_eqb (tx_postings a) (tx_postings b) && list_eqb tag_eqb (tx_tags a) (tx_tags b) &&
   list_eqb comment_eqb (tx_comments a) (tx_comments b) && rng_eqb (tx_rng a) (tx_rng b).
 Definition smap_eqb (a b : list (list N * list N)) : bool :=
